@@ -47,6 +47,7 @@ class Harness:
 
 
 REGISTRY: Dict[str, Harness] = {}
+THOROUGH_CAP = float(os.environ.get("VERIF_THOROUGH_CAP", "720"))
 
 
 def harness(
@@ -74,7 +75,9 @@ def harness(
             name=fn.__name__,
             module=fn.__module__,
             shards=[dict(s) for s in (sh or [{}])],
-            timeout=float(timeout[1] if THOROUGH else timeout[0]),
+            # thorough: every condition is capped at THOROUGH_CAP CPU seconds so that the whole tier of a property stays
+            # bounded (sum of budgets / cores); a condition that needs more is reported inconclusive, never as a pass
+            timeout=float(min(timeout[1], THOROUGH_CAP) if THOROUGH else timeout[0]),
             functions=list(functions),
             bounds=bounds,
             stubs=list(stubs),
